@@ -224,7 +224,8 @@ def tlc(module, cfg, workers=None, env=None, timeout=1800, simulate=None, depth=
     if m:
         r["violated"] = m.group(1)
         return r
-    raise ModelFailure("TLC failed on %s/%s (rc=%s):\n%s" % (module, cfg, rc, out[-3000:]))
+    i = out.find("Error:")
+    raise ModelFailure("TLC failed on %s/%s (rc=%s):\n%s\n...\n%s" % (module, cfg, rc, out[i:i + 1500] if i >= 0 else "", out[-1500:]))
 
 
 def tlc_trace(module, cfg, ndjson, timeout=1800, heap="8g", deque=False, env=None):
